@@ -18,11 +18,13 @@ for l in open(os.path.join(VERIF, 'properties.jsonl')):
 jobs = []
 for d in sorted(glob.glob(os.path.join(VERIF, 'seeded', 'REF_*', 'patch.diff'))):
     sid = os.path.basename(os.path.dirname(d))
+    if not re.search(os.environ.get('REF_FILTER', '.'), sid):
+        continue
     files = set(re.findall(r'^\+\+\+ b/(\S+)', open(d).read(), re.M))
     for pid, anchors in sorted(props.items()):
         if files & anchors:
             jobs.append((sid, pid))
-out_path = os.path.join(VERIF, 'seeded', 'REFACTOR.json')
+out_path = os.environ.get('REF_OUT') or os.path.join(VERIF, 'seeded', 'REFACTOR.json')
 res = json.load(open(out_path)) if os.path.exists(out_path) else {}
 
 
